@@ -62,8 +62,14 @@ def gen_history(rng, tier):
 
 # ----------------------------------------------------------------------------- implementation driver
 def read_marker(d):
-    p = os.path.join(d, "marker")
-    return int(open(p).read()) if os.path.exists(p) else None
+    """The run a report directory belongs to; None when its marker OR its hidden resources directory is missing or of another run."""
+    p, h = os.path.join(d, "marker"), os.path.join(d, ".html", "res")
+    if not os.path.exists(p):
+        return None
+    m = int(open(p).read())
+    if m != 777 and (not os.path.exists(h) or open(h).read() != str(m)):
+        return None
+    return m
 
 
 def observe(top):
@@ -160,6 +166,10 @@ def run_history(ops, via_project=False):
                               "foreign": dict(made), "foreign_now": foreign_state(top, made)})
                 with open(os.path.join(d, "marker"), "w") as f:
                     f.write(str(nxt))
+                # what the default HTML backend leaves in a report: a hidden resources directory (part of the report as well)
+                os.mkdir(os.path.join(d, ".html"))
+                with open(os.path.join(d, ".html", "res"), "w") as f:
+                    f.write(str(nxt))
                 nxt += 1
             else:
                 victim = os.path.join(top, "reports", "report-%d" % op[1])
@@ -172,6 +182,51 @@ def run_history(ops, via_project=False):
     finally:
         shutil.rmtree(top, ignore_errors=True)
     return obs, facts
+
+
+def xdev_history(nruns, limit, other_fs):
+    """reports/ is a link to a directory on ANOTHER file system (another disk, a volume): a run either archives the previous
+    report entirely (hidden entries included) or refuses to start and leaves everything where it is.  Returns None or (sig, text)."""
+    from lemoncheesecake.reporting.reportdir import create_report_dir_with_rotation
+    top = tempfile.mkdtemp(prefix="lccverif_c19x_")
+    ext = tempfile.mkdtemp(prefix="lccverif_c19x_", dir=other_fs)
+    try:
+        os.symlink(ext, os.path.join(top, "reports"))
+        prev = [None, []]
+        for k in range(nruns):
+            try:
+                d = create_report_dir_with_rotation(top, limit)
+            except OSError:
+                now = observe(top)
+                if now != prev:
+                    return ("refused-run-changed-something", "run %d refused to start (reports/ on another file system) but changed the project: %s -> %s" % (k, prev, now))
+                return None
+            with open(os.path.join(d, "marker"), "w") as f:
+                f.write(str(k))
+            os.mkdir(os.path.join(d, ".html"))
+            with open(os.path.join(d, ".html", "res"), "w") as f:
+                f.write(str(k))
+            now = observe(top)
+            if prev[0] is not None and [1, prev[0]] not in now[1]:
+                return ("previous-not-archive-1", "reports/ on another file system: after run %d the previous report is not (entirely) reports/report-1: %s" % (k, now))
+            if any(m is None for _, m in now[1]):
+                return ("archive-corrupt", "reports/ on another file system: an archive lost part of its content after run %d: %s" % (k, now))
+            prev = now
+        return None
+    finally:
+        shutil.rmtree(top, ignore_errors=True)
+        shutil.rmtree(ext, ignore_errors=True)
+
+
+def other_fs_dir():
+    try:
+        here = os.stat(tempfile.gettempdir()).st_dev
+        for cand in ("/dev/shm", "/run/shm", "/var/tmp", "/tmp"):
+            if os.path.isdir(cand) and os.access(cand, os.W_OK) and os.stat(cand).st_dev != here:
+                return cand
+    except OSError:
+        pass
+    return None
 
 
 # ----------------------------------------------------------------------------- oracle (independent of the model)
@@ -327,6 +382,16 @@ def check(run):
                            detail="the implementation raised; the model never fails (C19_histories_total)")
         if i < 2:
             run.sample({"history": ops, "observed_after_each_op": obs})
+    ofs = other_fs_dir()
+    if ofs:
+        for nruns, limit in [(3, 20), (4, 2), (3, None)]:
+            run.evaluations += 1
+            run.count("histories_with_reports_on_another_file_system")
+            hit = xdev_history(nruns, limit, ofs)
+            if hit:
+                run.violation("oracle:xdev:" + hit[0], hit[1], {"xdev": True, "runs": nruns, "limit": limit, "other_fs": ofs})
+    else:
+        run.count("no_other_file_system_available")
     if getattr(run, "model_ok", False):
         shards = [cases[i:i + 400] for i in range(0, len(cases), 400)]
         outs = run.coq_eval_many([("s%d" % k, cases_file(sh)) for k, sh in enumerate(shards)])
@@ -355,6 +420,10 @@ def model_disagrees(run, ops):
 def replay(path):
     r = json.load(open(path))
     rp = r.get("replay") or {}
+    if rp.get("xdev"):
+        hit = xdev_history(rp["runs"], rp["limit"], rp.get("other_fs") or other_fs_dir())
+        print(json.dumps({"xdev": True, "oracle": hit}))
+        return 1 if hit else 0
     ops = rp.get("history") or (r.get("broken") or [{}])[0].get("case")
     if not ops:
         print("nothing to replay in", path)
